@@ -319,7 +319,9 @@ def run(ctx):
             for hide in (True, False):
                 deep = (not keep) and hide
                 if ctx.thorough:
-                    depth, npat = (4 if (h, w) == (3, 2) and deep else 3), (4 if deep else 2)
+                    depth, npat = (3, 4 if deep else 2)
+                    if (h, w) == (3, 2) and deep:
+                        depth, npat = 4, 2
                     if (h, w) == (4, 3):
                         depth, npat = 3, 2
                 else:
